@@ -259,8 +259,8 @@ def job(ck, prog, natbin, rn, M, K, colon, quick):
     native.close()
 
 
-def main():
-    ck = Check("C08")
+def prepare(ck):
+    """configure `ck` and return the list of jobs of this property's exploration"""
     ck.crate = "hderive"
     quick = ck.tier == "quick"
     cfgs = [("D0", 2, 1, False), ("D1", 2, 1, False), ("D2", 2, 1, False), ("A1", 2, 1, False), ("F1", 2, 1, False), ("T1", 2, 1, False)]
@@ -279,7 +279,12 @@ def main():
     for rn, M, K, colon in cfgs:
         ck.programs.add("hderive::%s" % rn)
         jobs.append(lambda sub, rn=rn, M=M, K=K, colon=colon: job(sub, prog, natbin, rn, M, K, colon, quick))
-    ck.run_jobs(jobs)
+    return jobs
+
+
+def main():
+    ck = Check("C08")
+    ck.run_jobs(prepare(ck))
     ck.require_reached(["ok", "err", "split:2", "split:1", "forwarded:1"])
     ck.finish()
 
